@@ -640,6 +640,7 @@ class Inliner:
         self.project = project
         self.new_funcs = {q: fi for q, fi in project.funcs.items() if q not in base_funcs and self.inlinable_decl(fi)}
         self.new_consts: Dict[str, ast.AST] = {}
+        self.func_tables: Dict[str, object] = {}
         for m in project.modules.values():
             for nm, expr in m.top_assigns.items():
                 q = f"{m.name}.{nm}"
@@ -649,12 +650,34 @@ class Inliner:
                 glob = any(isinstance(n, ast.Global) and nm in n.names for n in ast.walk(m.tree))
                 if stores == 1 and not glob and is_const_expr(expr) and (not isinstance(expr, (ast.Dict, ast.List, ast.Set)) or never_mutated(project, nm)):
                     self.new_consts[q] = expr       # (a dict / list / set display counts only if nothing in the package writes into an object of that name)
+                elif stores == 1 and not glob and isinstance(expr, (ast.Dict, ast.Tuple)) and never_mutated(project, nm) and self.function_table(m, expr):
+                    self.new_consts[q] = expr       # a table of the module's own functions, keyed by constants
+                    self.func_tables[q] = m
         self.counter = 0
         self.log: List[str] = []
         for q, fi in list(self.new_funcs.items()):
             sc = self.Scope(project, fi)
             if any(isinstance(n, ast.Call) and sc.resolve_call(n) == q for n in own_walk(fi.node)):
                 del self.new_funcs[q]          # recursive helper: left as it is
+
+    @staticmethod
+    def function_table(m, expr) -> bool:
+        """A dict / tuple display whose leaves are constants or names of functions defined (once) at the top of module m."""
+        defs = [st.name for st in m.tree.body if isinstance(st, (ast.FunctionDef, ast.AsyncFunctionDef))]
+        rebound = {n.id for n in ast.walk(m.tree) if isinstance(n, ast.Name) and isinstance(n.ctx, (ast.Store, ast.Del))}
+
+        def leaf(e, depth=0):
+            if depth > 3:
+                return False
+            if isinstance(e, ast.Name):
+                return defs.count(e.id) == 1 and e.id not in rebound
+            if isinstance(e, ast.Tuple):
+                return all(leaf(x, depth + 1) for x in e.elts)
+            return is_const_expr(e)
+        if isinstance(expr, ast.Dict):
+            return bool(expr.keys) and len(expr.keys) <= 32 and all(k is not None and is_const_expr(k) for k in expr.keys) and all(leaf(v) for v in expr.values) \
+                and any(isinstance(x, ast.Name) for v in expr.values for x in ast.walk(v))
+        return len(expr.elts) <= 32 and all(leaf(v) for v in expr.elts) and any(isinstance(x, ast.Name) for v in expr.elts for x in ast.walk(v))
 
     @staticmethod
     def inlinable_decl(fi) -> bool:
@@ -722,6 +745,8 @@ class Inliner:
             def visit_Name(self, n):
                 if isinstance(n.ctx, ast.Load):
                     q = sc.resolve(n)
+                    if q in me.func_tables and (fi is None or fi.module is not me.func_tables[q] or (assigned_in(root) | ({a.arg for a in ast.walk(root.args) if isinstance(a, ast.arg)} if hasattr(root, "args") else set())) & {x.id for x in ast.walk(me.new_consts[q]) if isinstance(x, ast.Name)}):
+                        return n        # the table's function names mean something else here
                     if q in me.new_consts:
                         count[0] += 1
                         return at(me.new_consts[q], n)
@@ -795,7 +820,13 @@ class Inliner:
                     count[0] += 1
                     return n.value.elts[n.slice.value]      # (a, b, c)[1] == b  (the other elements are constants / plain names)
                 if isinstance(n.ctx, ast.Load):
-                    r = table_lookup_to_conditional(n)
+                    from .normalize2 import subscript_rules
+                    r = subscript_rules(n, root, sc.resolve)
+                    if r is not None:
+                        count[0] += 1
+                        return self.visit(at(r, n))
+                if isinstance(n.ctx, ast.Load):
+                    r = table_lookup_to_conditional(n, bools_of(root))
                     if r is not None:
                         count[0] += 1
                         return at(r, n)
@@ -1038,7 +1069,14 @@ def _bool_test(e: ast.AST) -> Optional[ast.AST]:
     return None
 
 
-def table_lookup_to_conditional(node: ast.Subscript) -> Optional[ast.AST]:
+def bools_of(root) -> Set[str]:
+    if not isinstance(root, (ast.FunctionDef, ast.AsyncFunctionDef)):
+        return set()
+    from .normalize2 import boolean_locals
+    return boolean_locals(root)
+
+
+def table_lookup_to_conditional(node: ast.Subscript, bools=frozenset()) -> Optional[ast.AST]:
     """`{(True, True): A, (True, False): B, ...}[bool(p), bool(q)]` (every combination present) as the decision tree
     `(A if q else B) if p else (...)`; likewise a one-dimensional `{True: A, False: B}[bool(p)]`."""
     d = node.value
@@ -1046,7 +1084,7 @@ def table_lookup_to_conditional(node: ast.Subscript) -> Optional[ast.AST]:
         return None
     key = node.slice
     comps = list(key.elts) if isinstance(key, ast.Tuple) else [key]
-    tests = [_bool_test(c) for c in comps]
+    tests = [c if (isinstance(c, ast.Name) and c.id in bools) else _bool_test(c) for c in comps]
     if any(t is None for t in tests):
         return None
     table = {}
@@ -1086,6 +1124,11 @@ def lift_conditionals(fn: ast.AST) -> int:
             a = ast.copy_location(ast.Assign(targets=[copy.deepcopy(st.targets[0])], value=v.body), st)
             b = ast.copy_location(ast.Assign(targets=[copy.deepcopy(st.targets[0])], value=v.orelse), st)
             return [ast.copy_location(ast.If(test=v.test, body=expand(a) or [a], orelse=expand(b) or [b]), st)]
+        if isinstance(st, ast.Return) and isinstance(st.value, ast.IfExp):
+            # return (X if c else Y)  ==  if c: return X / else: return Y
+            a = ast.copy_location(ast.Return(value=st.value.body), st)
+            b = ast.copy_location(ast.Return(value=st.value.orelse), st)
+            return [ast.copy_location(ast.If(test=st.value.test, body=expand(a) or [a], orelse=expand(b) or [b]), st)]
         if isinstance(st, ast.Return) and isinstance(st.value, ast.Tuple):
             for i, e in enumerate(st.value.elts):
                 if isinstance(e, ast.IfExp) and all(pure(x) for x in st.value.elts[:i]):
@@ -1422,23 +1465,35 @@ def normalize(project) -> List[str]:
     except OSError:
         return []
     renamed = recover_renamed_anchors(project)
-    from .normalize2 import simplify_defensive, recover_loops, hoist_lambda_calls
+    from .normalize2 import simplify_defensive, recover_loops, hoist_lambda_calls, sink_loop_exit
+
+    def style_passes(fn) -> int:
+        n = desugar(fn)
+        n += hoist_lambda_calls(fn)
+        n += simplify_defensive(fn)
+        k = hoist_lambda_calls(fn)
+        if k:
+            n += k + simplify_defensive(fn)
+        n += recover_loops(fn)
+        k = sink_loop_exit(fn)
+        if k:
+            n += k + simplify_defensive(fn)
+        return n
     for fi in project.funcs.values():
-        desugar(fi.node)
         inline_callable_aliases(fi.node)
-        hoist_lambda_calls(fi.node)
-        simplify_defensive(fi.node)
-        recover_loops(fi.node)
+        style_passes(fi.node)
     inl = Inliner(project, base_funcs, base_consts)
     inl.log += renamed
-    if not inl.new_funcs and not inl.new_consts:
-        # still normalise '<constant>'.format(...) templates
-        pass
-    inl.run()
+    for _round in range(3):
+        changed = inl.run() if _round else (inl.run() or 1)
+        if not changed:
+            break
+        again = 0
+        for fi in project.funcs.values():
+            again += style_passes(fi.node)
+        if not again:
+            break
     for fi in project.funcs.values():
-        desugar(fi.node)
-        simplify_defensive(fi.node)
-        recover_loops(fi.node)
         inline_explaining_variables(fi.node)
         lift_conditionals(fi.node)
         split_assignments(fi.node)
